@@ -12,7 +12,7 @@ use crate::ops::*;
 use crate::payload::*;
 use crate::seam;
 use crate::shadow::*;
-use crate::tok::{self, Injected, Tok};
+use crate::tok::{self, ZTok, ZTok16, Injected, Tok};
 use crate::world::*;
 
 /// What the generator may look at when it draws the next op of a callback.
@@ -788,12 +788,16 @@ impl<'w, 'r, 'gc> Cb<'w, 'r, 'gc> {
                     ),
                 };
                 let addr = self.w.sh.objs.get(&obj).map(|o| o.addr);
+                // a handle of another (possibly destroyed) arena that is accepted here is also a
+                // breach of arena independence
+                let other_arena = self.w.handles[handle].arena != a;
+                let al: &[&str] = if other_arena && !expected { &["C20.foreign-handle"] } else { &[] };
                 if contains != expected {
-                    self.viol("C14.foreign", format!("contains(handle {handle}) = {contains}, expected {expected}"));
+                    self.w.violate_with("C14.foreign", al, format!("contains(handle {handle}) = {contains}, expected {expected}"));
                 } else if tf.is_some() != expected {
-                    self.viol("C14.foreign", format!("try_fetch(handle {handle}).is_ok() = {}, expected {expected}", tf.is_some()));
+                    self.w.violate_with("C14.foreign", al, format!("try_fetch(handle {handle}).is_ok() = {}, expected {expected}", tf.is_some()));
                 } else if fetched.is_ok() != expected {
-                    self.viol("C14.foreign", format!("fetch(handle {handle}) returned={}, expected to {}", fetched.is_ok(), if expected { "return" } else { "panic" }));
+                    self.w.violate_with("C14.foreign", al, format!("fetch(handle {handle}) returned={}, expected to {}", fetched.is_ok(), if expected { "return" } else { "panic" }));
                 } else if expected && (tf != addr || fetched.as_ref().ok().copied() != addr) {
                     self.viol("C14.fetch-identity", format!("fetch / try_fetch through handle {handle} did not return the stashed object {obj}"));
                 } else if let Err(m) = &fetched {
@@ -1403,6 +1407,9 @@ impl<'w, 'r, 'gc> Cb<'w, 'r, 'gc> {
         let mut made_elems = 0usize;
         let mut completed: Option<gc_arena::Gc<'gc, ()>> = None;
         let mut expected_panic = false;
+        let mut raw_content_error: Option<String> = None;
+        let z0 = tok::z_counts();
+        let zst_elems = matches!(kind, BKind::SliceZst | BKind::SwhZst);
         let res = std::panic::catch_unwind(std::panic::AssertUnwindSafe(|| {
             let _t = seam::track();
             match kind {
@@ -1566,6 +1573,163 @@ impl<'w, 'r, 'gc> Cb<'w, 'r, 'gc> {
                         }
                     }
                 }
+                BKind::SliceZst => {
+                    let b = GcSliceBuilder::<ZTok>::new(n);
+                    match stage {
+                        BStage::AbandonNew | BStage::AbandonAfterHeader | BStage::WrongLen(_) => drop(b),
+                        BStage::PanicAt(k) => {
+                            let k = (k as usize).min(n.saturating_sub(1));
+                            expected_panic = n > 0;
+                            let cnt = &mut made_elems;
+                            let g = b.write_slice_with(mc, |i| {
+                                if i == k {
+                                    std::panic::panic_any(Injected)
+                                }
+                                *cnt += 1;
+                                ZTok::new()
+                            });
+                            completed = Some(gc_arena::Gc::erase(g));
+                        }
+                        BStage::Complete => {
+                            let cnt = &mut made_elems;
+                            let g = b.write_slice_with(mc, |_| {
+                                *cnt += 1;
+                                ZTok::new()
+                            });
+                            completed = Some(gc_arena::Gc::erase(g));
+                        }
+                    }
+                }
+                BKind::SwhZst => {
+                    let b = GcSliceWithHeaderBuilder::<Tok, ZTok16>::new(n);
+                    match stage {
+                        BStage::AbandonNew => drop(b),
+                        BStage::AbandonAfterHeader | BStage::WrongLen(_) => {
+                            made_header = true;
+                            drop(b.write_header(Tok(first)))
+                        }
+                        BStage::PanicAt(k) => {
+                            made_header = true;
+                            let k = (k as usize).min(n.saturating_sub(1));
+                            expected_panic = n > 0;
+                            let cnt = &mut made_elems;
+                            let g = b.write_header(Tok(first)).write_slice_with(mc, |i| {
+                                if i == k {
+                                    std::panic::panic_any(Injected)
+                                }
+                                *cnt += 1;
+                                ZTok16::new()
+                            });
+                            completed = Some(gc_arena::Gc::erase(g));
+                        }
+                        BStage::Complete => {
+                            made_header = true;
+                            let cnt = &mut made_elems;
+                            let g = b.write_header(Tok(first)).write_slice_with(mc, |_| {
+                                *cnt += 1;
+                                ZTok16::new()
+                            });
+                            completed = Some(gc_arena::Gc::erase(g));
+                        }
+                    }
+                }
+                BKind::SwhMeta => {
+                    let b = GcSliceWithHeaderBuilder::<Tok, Tok, crate::payload::NodeTag>::new_with_type_meta::<crate::payload::TagB>(n);
+                    match stage {
+                        BStage::AbandonNew => drop(b),
+                        BStage::AbandonAfterHeader | BStage::WrongLen(_) => {
+                            made_header = true;
+                            drop(b.write_header(Tok(first)))
+                        }
+                        BStage::PanicAt(k) => {
+                            made_header = true;
+                            let k = (k as usize).min(n.saturating_sub(1));
+                            expected_panic = n > 0;
+                            let cnt = &mut made_elems;
+                            let g = b.write_header(Tok(first)).write_slice_with(mc, |i| {
+                                if i == k {
+                                    std::panic::panic_any(Injected)
+                                }
+                                *cnt += 1;
+                                Tok(first + 1 + i as u32)
+                            });
+                            completed = Some(gc_arena::Gc::erase(g));
+                        }
+                        BStage::Complete => {
+                            made_header = true;
+                            let cnt = &mut made_elems;
+                            let g = b.write_header(Tok(first)).write_slice_with(mc, |i| {
+                                *cnt += 1;
+                                Tok(first + 1 + i as u32)
+                            });
+                            completed = Some(gc_arena::Gc::erase(g));
+                        }
+                    }
+                }
+                BKind::SwhRaw => {
+                    let mut b = GcSliceWithHeaderBuilder::<Tok, Tok>::new(n);
+                    match stage {
+                        BStage::AbandonNew => drop(b),
+                        BStage::AbandonAfterHeader => {
+                            made_header = true;
+                            // SAFETY: the header is written before it is declared initialised
+                            unsafe {
+                                b.header_ptr().write(Tok(first));
+                                drop(b.assume_init())
+                            }
+                        }
+                        _ => {
+                            made_header = true;
+                            // SAFETY: header and every element are written before the matching assume_init
+                            unsafe {
+                                b.header_ptr().write(Tok(first));
+                                let mut sb = b.assume_init();
+                                let p = sb.slice_ptr() as *mut Tok;
+                                for i in 0..n {
+                                    p.add(i).write(Tok(first + 1 + i as u32));
+                                    made_elems += 1;
+                                }
+                                completed = Some(gc_arena::Gc::erase(sb.assume_init(mc)));
+                            }
+                        }
+                    }
+                }
+                BKind::SizedRaw => {
+                    let raw = GcBuilder::<Static<Tok>>::new().unwrap_static().into_raw();
+                    // SAFETY: same T, M, P as the builder the pointer came from
+                    let mut b: GcBuilder<'gc, Tok> = unsafe { GcBuilder::from_raw(raw) };
+                    match stage {
+                        BStage::Complete => {
+                            made_header = true;
+                            // SAFETY: the value is written before assume_init
+                            unsafe {
+                                b.as_ptr().write(Tok(first));
+                                completed = Some(gc_arena::Gc::erase(b.assume_init(mc)));
+                            }
+                        }
+                        _ => drop(b),
+                    }
+                }
+                BKind::StrRaw => {
+                    let mut b = GcStrBuilder::new(n);
+                    match stage {
+                        BStage::Complete => {
+                            // SAFETY: every byte is written (ASCII) before assume_init
+                            let g = unsafe {
+                                let p = b.str_ptr() as *mut u8;
+                                for i in 0..n {
+                                    p.add(i).write(b'a' + (i % 26) as u8);
+                                }
+                                b.assume_init(mc)
+                            };
+                            if g.len() != n || !g.bytes().enumerate().all(|(i, c)| c == b'a' + (i % 26) as u8) {
+                                raw_content_error = Some(format!("a str of length {n} completed through str_ptr reads back {:?}", &*g));
+                            }
+                            completed = Some(gc_arena::Gc::erase(g));
+                        }
+                        _ => drop(b),
+                    }
+                }
                 BKind::StaticSwh => {
                     let b = GcSliceWithHeaderBuilder::<Static<u64>, Static<u16>>::new(n);
                     match stage {
@@ -1589,6 +1753,19 @@ impl<'w, 'r, 'gc> Cb<'w, 'r, 'gc> {
             self.viol("C18.copy-length", format!("builder {kind:?}: a source of the wrong length was accepted"));
             return;
         }
+        if let Some(e) = raw_content_error {
+            self.viol("C18.content", e);
+            return;
+        }
+        // the element constructor ran for exactly the indices it should have
+        if !unwound && matches!(stage, BStage::PanicAt(_)) && expected_panic {
+            self.viol("C18.content", format!("builder {kind:?} {stage:?} (n = {n}): completed although the element constructor never reached the faulting index (it ran {made_elems} times)"));
+            return;
+        }
+        if !unwound && completed.is_some() && matches!(kind, BKind::Swh | BKind::Slice | BKind::SwhPodTok | BKind::SliceZst | BKind::SwhZst | BKind::SwhMeta) && made_elems != n {
+            self.viol("C18.content", format!("builder {kind:?} {stage:?}: completed with {n} elements but the element constructor ran {made_elems} times"));
+            return;
+        }
         self.w.stats.cell(format!("builder|{kind:?}|{}|{}", match stage { BStage::PanicAt(_) => "PanicAt".to_string(), BStage::WrongLen(_) => "WrongLen".to_string(), s => format!("{s:?}") }, phase_name(self.phase)));
         if unwound || !matches!(stage, BStage::Complete) {
             self.w.stats.flag("C18.abandoned");
@@ -1602,8 +1779,17 @@ impl<'w, 'r, 'gc> Cb<'w, 'r, 'gc> {
             if made_header {
                 want.push(first);
             }
-            for i in 0..made_elems {
-                want.push(first + 1 + i as u32);
+            if !zst_elems {
+                for i in 0..made_elems {
+                    want.push(first + 1 + i as u32);
+                }
+            } else {
+                let z1 = tok::z_counts();
+                if z1.0 - z0.0 != made_elems as u64 || z1.1 - z0.1 != made_elems as u64 {
+                    let al: &[&str] = if matches!(stage, BStage::PanicAt(_)) { &["C11.builder-parts"] } else { &[] };
+                    self.w.violate_with("C18.parts", al, format!("builder {kind:?} {stage:?} (n = {n}): {} zero-sized elements were constructed and {} destructed when it was abandoned, expected {made_elems} of each", z1.0 - z0.0, z1.1 - z0.1));
+                    return;
+                }
             }
             for t in first..first + ids {
                 let d = tok::drops(t);
@@ -1653,8 +1839,17 @@ impl<'w, 'r, 'gc> Cb<'w, 'r, 'gc> {
                 if made_header {
                     toks.push(first);
                 }
-                toks.extend((0..made_elems).map(|i| first + 1 + i as u32));
-                let okind = if kind == BKind::Swh { Kind::Built { len: n as u8 } } else { Kind::Lay { t: 253, len: 0 } };
+                if !zst_elems {
+                    toks.extend((0..made_elems).map(|i| first + 1 + i as u32));
+                } else {
+                    let z1 = tok::z_counts();
+                    if z1.1 != z0.1 {
+                        self.viol("C18.parts", format!("builder {kind:?}: completed, but {} of its zero-sized elements were destructed on the way", z1.1 - z0.1));
+                        return;
+                    }
+                    self.w.z_pending.insert(first, made_elems as u64);
+                }
+                let okind = if matches!(kind, BKind::Swh | BKind::SwhRaw) { Kind::Built { len: n as u8 } } else { Kind::Lay { t: 253, len: 0 } };
                 for t in &toks {
                     self.w.tok2obj.insert(*t, first);
                 }
